@@ -54,7 +54,7 @@ func (m Math) Min(x ...interface{}) (res float64) {
 // Max gets the maximum value
 func (m Math) Max(x ...interface{}) (res float64) {
 	res = float64(math.SmallestNonzeroFloat64)
-	for _, v := range x {
+	for i, v := range x {
 		if reflect.TypeOf(v).Kind() == reflect.Int {
 			v = float64(reflect.ValueOf(v).Int())
 		} else if reflect.TypeOf(v).Kind() == reflect.Int64 {
@@ -62,7 +62,9 @@ func (m Math) Max(x ...interface{}) (res float64) {
 		} else if reflect.TypeOf(v).Kind() == reflect.Float64 {
 			v = float64(reflect.ValueOf(v).Float())
 		}
-		if v.(float64) > res {
+		// the first argument always replaces the start value, so that
+		// zero and negative arguments can be the maximum
+		if i == 0 || v.(float64) > res {
 			res = v.(float64)
 		}
 	}
